@@ -515,10 +515,29 @@ pub fn build_pbd(c: &PbdCase) -> Vec<u8> {
         let count = b.len();
         let header = 4 + 2 * count + if count % 2 == 1 { 2 } else { 0 } + 48 * count;
         // names after the matrices
+        // every name is found through its own offset: where the strings lie is free. Half of the deformers store
+        // them in another order than the bones, with identical names stored once and unrelated bytes in between.
         let mut names = vec![];
-        let mut offs = vec![];
-        for (name, _) in b {
-            offs.push((header + names.len()) as u16);
+        let mut offs = vec![0u16; count];
+        let sel = b.first().map(|x| x.1[0]).unwrap_or(0);
+        let mut order: Vec<usize> = (0..count).collect();
+        if sel & 1 == 1 {
+            order.sort_by_key(|&i| (b[i].1[1], i));
+        }
+        let mut stored: Vec<(&str, u16)> = vec![];
+        for &i in &order {
+            let name = b[i].0.as_str();
+            if sel & 1 == 1 {
+                if let Some((_, o)) = stored.iter().find(|(n, _)| *n == name) {
+                    offs[i] = *o;
+                    continue;
+                }
+                if sel & 2 == 2 {
+                    names.extend_from_slice(b"gap\0");
+                }
+            }
+            offs[i] = (header + names.len()) as u16;
+            stored.push((name, offs[i]));
             names.extend_from_slice(name.as_bytes());
             names.push(0);
         }
